@@ -16,7 +16,7 @@ LEVEL = 'model_checking'
 TECHNIQUE = ('bounded exhaustive enumeration of (container kind, length, slice bounds / index, new elements, layout, entry point) on the '
              'real put/put_slice/view/attribute code with a Python list as reference model on every case; the whole resulting '
              'program is compared structurally with the model rendered through a witness template and parsed by CPython')
-LEVEL_TEXT = ('43 container kinds (every list-like field category and the virtual fields _all/_args/_bases/_body) x lengths 0..3 x all '
+LEVEL_TEXT = ('47 container kinds (every list-like field category and the virtual fields _all/_args/_bases/_body) x lengths 0..3 x all '
               'bounds in -(n+2)..n+2 and "end" x 0..2 new elements x 3 layouts x 9 entry points are executed on the real code and '
               'compared with list semantics; refusals of requests whose model result is valid Python are reported')
 LEVEL_NOTE = ('trusted: Python list / slice.indices semantics, CPython ast; documented refusals: NotImplementedError, minimum lengths '
@@ -24,13 +24,14 @@ LEVEL_NOTE = ('trusted: Python list / slice.indices semantics, CPython ast; docu
 RULE = ('enum: case = (kind, n, start, stop, m, layout, entry); non-trivial = distinct cases whose model result differs from the old '
         'list; states = distinct start/result sources; traces = cases compared with the list model')
 ASSUMPTIONS = ['norm=True, pars auto', 'elements are simple names / minimal statements so that only container semantics is exercised']
-BOUNDS = {'quick': '43 kinds (6 with multi-byte elements, 4 mixing positional/keyword/starred arguments), n in 0..3, all (start, stop) in {-(n+2)..n+2, end}^2, m in 0..2, bare layout, entries put_slice/view-slice/put(one=False); '
+BOUNDS = {'quick': '47 kinds (6 with multi-byte elements, 4 mixing positional/keyword/starred arguments, 4 with op_side / set_norm options), n in 0..3, all (start, stop) in {-(n+2)..n+2, end}^2, m in 0..2, bare layout, entries put_slice/view-slice/put(one=False); '
                    'single-index put/delete/insert/append/extend/prepend/prextend/attribute assignment; multi-line and stair (continuation line at a smaller column) layouts for bounds in 0..n',
           'thorough': 'n up to 4, all entries x both layouts for every bound pair, fst and ast code forms'}
 
 
 class Kind:
-    def __init__(self, name, tmpl, path, field, el, new, code, minlen=0, vfield=None, mode=None, unsupported=(), one=None, opts=None):
+    def __init__(self, name, tmpl, path, field, el, new, code, minlen=0, vfield=None, mode=None, unsupported=(), one=None, opts=None,
+                 startmin=0):
         self.name, self.tmpl, self.path, self.field = name, tmpl, path, field
         self.el, self.new, self.code, self.minlen = el, new, code, minlen
         self.vfield = vfield
@@ -38,6 +39,7 @@ class Kind:
         self.unsupported = unsupported
         self.one = one or (lambda x: code([x]))   # code for a single-element put
         self.opts = opts or {}
+        self.startmin = max(startmin, minlen)  # shortest start container (the normalised empty form is a different node kind)
 
 
 def _csv(els):
@@ -117,6 +119,15 @@ KINDS += [
     Kind('ClassDef._bases(mixed,kw)', lambda e: f'class C({_csv(e)}): pass' if e else 'class C: pass', P, '_bases', MIXA, ['b0=x0', 'b1=x1'], _csv),
     Kind('ClassDef._bases(mixed,pos)', lambda e: f'class C({_csv(e)}): pass' if e else 'class C: pass', P, '_bases', MIXA, ['x0', '*x1'], _csv),
 ]
+KINDS += [  # option-dependent container behaviour
+    Kind('BoolOp.values(op_side=right)', lambda e: 'v = ' + ' and '.join(e), PV, 'values', E3, X2, lambda e: ' and '.join(e), 2,
+         opts={'op_side': 'right'}),
+    Kind('Compare._all(op_side=right)', lambda e: 'v = ' + ' < '.join(e), PV, '_all', E3, X2, lambda e: ' < '.join(e), 2,
+         opts={'op': '<', 'op_side': 'right'}),
+    Kind('Set.elts(set_norm=star)', lambda e: 'v = {' + (_csv(e) if e else '*()') + '}', PV, 'elts', E3, X2, _csv, 0, startmin=1),
+    Kind('Set.elts(set_norm=call)', lambda e: 'v = {' + _csv(e) + '}' if e else 'v = set()', PV, 'elts', E3, X2, _csv, 0,
+         opts={'set_norm': 'call'}, startmin=1),
+]
 KIND = {k.name: k for k in KINDS}
 
 
@@ -180,7 +191,7 @@ def do_entry(fst, kind, root, entry, start, stop, code):
     elif entry == 'put_slice_none':
         n.put_slice(None, start, stop, f, **o)
     elif entry == 'del_view_slice':
-        with fst.FST.options(norm=True):
+        with fst.FST.options(norm=True, **kind.opts):
             v = getattr(n, f)
             del v[_sl(start, stop)]
     else:
@@ -232,7 +243,7 @@ def judge(fst, kind, cid, src, root, exp_els, exc, res, params, rep, changed):
 def run_slice_cases(fst, kind, n, res, tier):
     old = kind.el[:n]
     base = kind.tmpl(old)
-    if n < kind.minlen or O.try_parse(base) is None:
+    if n < kind.startmin or O.try_parse(base) is None:
         return
     for lay in ('bare', 'ml', 'stair'):
         src = layout(base, lay)
@@ -281,7 +292,7 @@ def run_index_cases(fst, kind, n, res, tier):
     """single index put / delete / insert / append / extend / prepend / prextend / attribute assignment."""
     old = kind.el[:n]
     src = kind.tmpl(old)
-    if n < kind.minlen or O.try_parse(src) is None:
+    if n < kind.startmin or O.try_parse(src) is None:
         return
     x = kind.new[0]
     one_code = kind.one(x)
@@ -297,7 +308,7 @@ def run_index_cases(fst, kind, n, res, tier):
         exc = None
         try:
             with deadline(10):
-                with fst.FST.options(norm=True):
+                with fst.FST.options(norm=True, **kind.opts):
                     fn(node_at(root, kind.path))
         except CaseTimeout:
             res.fail(cid, 'hang', '', params, rep)
@@ -398,7 +409,7 @@ def run_subview_cases(fst, kind, n, res, tier):
                     exc = None
                     try:
                         with deadline(10):
-                            with fst.FST.options(norm=True):
+                            with fst.FST.options(norm=True, **kind.opts):
                                 fn(getattr(node_at(root, kind.path), f)[a:b])
                     except CaseTimeout:
                         res.fail(cid, 'hang', '', params, rep)
